@@ -126,3 +126,45 @@ Theorem C06_single_key_never_compared o file b v asc fmt content ks :
   keep_sorted o file b = Ok [].
 Proof. exact (keep_sorted_lazy o file b v asc fmt content ks). Qed.
 Print Assumptions C06_single_key_never_compared.
+
+(* The 'if' direction at validator level (lexicographic): keys out of order and a well-formed severity give exactly one diagnostic, at the first key that breaks the order. *)
+Theorem C06_unsorted_is_reported o file b v asc content ks sev :
+  get_attr (T "keep-sorted") (b_attrs b) = Some v ->
+  parse_direction v = Ok asc ->
+  parse_format (b_attrs b) = Ok Lexicographic ->
+  content_of file b = Ok content ->
+  keys_of o (sort_pat b) E_SORT_PATTERN content = Ok ks ->
+  ~ lex_sorted asc ks ->
+  sev_of (b_attrs b) = Ok sev ->
+  exists k, lex_first_bad asc ks k /\
+            keep_sorted o file b = Ok [key_diag b k V_SORTED sev [dir_word asc]].
+Proof. exact (keep_sorted_lex_unsorted o file b v asc content ks sev). Qed.
+Print Assumptions C06_unsorted_is_reported.
+
+(* A broken severity attribute cannot hide an unsorted block: the run stops with the severity error. *)
+Theorem C06_bad_severity_fails_closed o file b v asc content ks e :
+  get_attr (T "keep-sorted") (b_attrs b) = Some v ->
+  parse_direction v = Ok asc ->
+  parse_format (b_attrs b) = Ok Lexicographic ->
+  content_of file b = Ok content ->
+  keys_of o (sort_pat b) E_SORT_PATTERN content = Ok ks ->
+  ~ lex_sorted asc ks ->
+  sev_of (b_attrs b) = Err e ->
+  keep_sorted o file b = Err e.
+Proof. exact (keep_sorted_lex_unsorted_bad_severity o file b v asc content ks e). Qed.
+Print Assumptions C06_bad_severity_fails_closed.
+
+(* Complete outcome table (lexicographic) once the keys are known: silent when sorted, else one diagnostic at the first bad key or the severity error - nothing else. *)
+Theorem C06_outcome_table o file b v asc content ks :
+  get_attr (T "keep-sorted") (b_attrs b) = Some v ->
+  parse_direction v = Ok asc ->
+  parse_format (b_attrs b) = Ok Lexicographic ->
+  content_of file b = Ok content ->
+  keys_of o (sort_pat b) E_SORT_PATTERN content = Ok ks ->
+  (lex_sorted asc ks /\ keep_sorted o file b = Ok []) \/
+  (exists k, lex_first_bad asc ks k /\
+     ((exists sev, sev_of (b_attrs b) = Ok sev /\
+                   keep_sorted o file b = Ok [key_diag b k V_SORTED sev [dir_word asc]]) \/
+      (sev_of (b_attrs b) = Err E_SEVERITY /\ keep_sorted o file b = Err E_SEVERITY))).
+Proof. exact (keep_sorted_lex_outcomes o file b v asc content ks). Qed.
+Print Assumptions C06_outcome_table.
